@@ -26,3 +26,102 @@ def opts_sample(o):
 def db_sample(db, k=3):
     return [{"command": b2s(c["cmd"]), "description": b2s(c["desc"])[:60], "keywords": [b2s(x) for x in c["keys"] or []],
              "platform": [b2s(x) for x in c["platform"] or []], "pipeline": c["pipeline"]} for c in (db or [])[:k]]
+
+
+# ---------------------------------------------------------------- shared engine cases (harness "eng")
+
+def ccmd(e, lc):
+    return ("{| c_cmd := %s; c_desc := %s; c_keys := %s; c_tags := %s; c_niche := %s; c_platform := %s; c_pipeline := %s; "
+            "c_cmd_l := %s; c_desc_l := %s; c_keys_l := %s; c_tags_l := %s; c_cmd_lc := %s |}") % (
+        core.cbytes(bytes(e["cmd"] or [])), core.cbytes(bytes(e["desc"] or [])), cbl(e["keys"]), cbl(e["tags"]),
+        core.cbytes(bytes(e["niche"] or [])), cbl(e["platform"]), core.cbool(e["pipeline"]),
+        core.cbytes(bytes(e["cmd_l"] or [])), core.cbytes(bytes(e["desc_l"] or [])), cbl(e["keys_l"]), cbl(e["tags_l"]),
+        core.cbytes(bytes(lc or [])))
+
+
+def fl(x):
+    """decimal or %x float text -> Coq float"""
+    if x in ("", None):
+        return "0%float"
+    if x.startswith("0x") or x.startswith("-0x") or x in ("+Inf", "-Inf", "NaN", "Inf"):
+        return core.cfloat(x)
+    return core.cfloat(float(x).hex())
+
+
+def copts(o):
+    return ("{| o_limit := %s; o_boosts := %s; o_pipeline_only := %s; o_pipeline_boost := %s; o_fuzzy := %s; o_threshold := %s; "
+            "o_nlp := %s; o_terms_cap := %s; o_all_platforms := %s; o_platforms := %s; o_no_cross := %s |}") % (
+        core.cz(o["limit"]), core.clist(["(%s, %s)" % (core.cbytes(bytes(b["word"] or [])), fl(b["f"])) for b in dedupe_boosts(o.get("boosts"))]),
+        core.cbool(o["pipeline_only"]), fl(o.get("pipeline_boost")), core.cbool(o["fuzzy"]), core.cz(o["threshold"]),
+        core.cbool(o["nlp"]), core.cz(o["terms_cap"]), core.cbool(o["all_platforms"]), cbl(o.get("platforms")), core.cbool(o["no_cross"]))
+
+
+def dedupe_boosts(bs):
+    """Go builds a map: the last factor given for a word wins."""
+    out = {}
+    for b in (bs or []):
+        out[bytes(b["word"] or [])] = b
+    return list(out.values())
+
+
+def cnlp(n):
+    tf = "None"
+    if n["has_tfidf"]:
+        tf = "(Some %s)" % cres(n.get("tfidf"))
+    return ("{| n_actions := %s; n_targets := %s; n_enhanced := %s; n_intent_boost := %s; n_cooccur := %s; n_cascade := %s; n_tfidf := %s |}") % (
+        cbl(n["actions"]), cbl(n["targets"]), cbl(n["enhanced"]), core.clist([core.cfloat(x) for x in (n.get("intent_boost") or [])]),
+        core.clist([core.cbool(x) for x in (n.get("cooccur") or [])]), core.clist([core.cfloat(x) for x in (n.get("cascade") or [])]), tf)
+
+
+def cecase(c):
+    params = "{| p_k1 := %s; p_b := (%s, %s, %s, %s); p_w := (%s, %s, %s, %s); p_min_idf := %s |}" % (
+        (core.cfloat(c["k1"]),) + tuple(core.cfloat(x) for x in c["b"]) + tuple(core.cfloat(x) for x in c["w"]) + (core.cfloat(c["min_idf"]),))
+    extra = core.clist(['("%s", %s)' % (k, cres(v)) for k, v in sorted((c.get("extra") or {}).items())])
+    fz = core.clist(["None" if x is None else "(Some %s)" % core.cz(x) for x in (c.get("fuzzy") or [])])
+    cmds = core.clist([ccmd(e, lc) for e, lc in zip(c.get("db") or [], c.get("cmd_lc") or [])])
+    return ("{| k_stop := stopw; k_tools := toolw; k_host := %s; k_params := %s; k_idf := %s; k_fuzzy := %s; k_cmds := %s; k_q := %s; "
+            "k_opts := %s; k_nlp := %s; k_obs := %s; k_extra := %s; k_recased := %s |}") % (
+        core.cbytes(bytes(c["host"] or [])), params, core.clist([core.cfloat(x) for x in c["idf"]]), fz, cmds,
+        core.cbytes(bytes(c["q"] or [])), copts(c["opts"]), cnlp(c["nlp"]), cres(c.get("obs")), extra,
+        core.cbytes(bytes(c.get("recased") or [])))
+
+
+def eng_preamble(cases):
+    """stop words and tool list are the same for every case of a run: define them once per file"""
+    for c in cases:
+        if c.get("stop") is not None:
+            return "Definition stopw : list (list N) := %s.\nDefinition toolw : list (list N) := %s.\n" % (cbl(c["stop"]), cbl(c["tools"]))
+    return "Definition stopw : list (list N) := [].\nDefinition toolw : list (list N) := [].\n"
+
+
+def eng_sample(c):
+    return {"query": b2s(c["q"]), "options": opts_sample(c["opts"]), "db_size": len(c.get("db") or []), "db_head": db_sample(c.get("db")),
+            "answer": (c.get("obs") or [])[:5], "paired_runs": {k: len(v or []) for k, v in (c.get("extra") or {}).items()}}
+
+
+def eng_identity(c):
+    return [c.get("db"), c["q"], c["opts"]]
+
+
+def eng_shrink(c):
+    db = c.get("db") or []
+    n = len(db)
+    if n > 1:
+        for lo, hi in ((0, n // 2), (n // 2, n)):
+            d = dict(c); d["db"] = db[:lo] + db[hi:]; yield d
+    for i in range(min(n, 40)):
+        d = dict(c); d["db"] = db[:i] + db[i + 1:]; yield d
+    q = bytes(c["q"] or [])
+    ws = q.split(b" ")
+    if len(ws) > 1:
+        for i in range(len(ws)):
+            d = dict(c); d["q"] = list(b" ".join(ws[:i] + ws[i + 1:])); d["recased"] = d["q"]; yield d
+
+
+ENG_HEADER = "From WTF Require Import Model.Validate Model.Text Model.Platform Model.Engine Check.EngineTypes Check.Eng."
+ENG_RULE = ("engine cases: databases of 0-41 entries built from a 75-word vocabulary (actions, targets, stop words, tool names) with planted duplicates, "
+            "entries identical except for one field, equal-scoring groups, empty fields, punctuation glue, multi-byte / invalid bytes, platform tags from "
+            "{none, linux, macos, windows, darwin, powershell, cmd, bash, unix, Cross-Platform, unknown, mixed case}, pipeline markers; queries of 0-15 words "
+            "(vocabulary words, typos/fragments of entries, words of entries, punctuation, re-cased); options vary in every field (limits around the "
+            "database size, boosts, pipeline, fuzzy, threshold, NLP, term cap, platform switches). Each case runs SearchUniversal plus paired runs "
+            "(fuzzy on/off, NLP on/off and boosts on/off at a limit above the database size, re-cased query, cached twice, legacy pipeline search). ")
